@@ -22,7 +22,9 @@ UNITS = {
         "shims": {
             "DhtKey": (None, {"0": "[u8; 32]"}),
             "NodeId": (None, {"0": "DhtKey"}),
-            "KademliaRoutingTable": (None, {"node_id": "NodeId"}),
+            "KademliaRoutingTable": (None, {"node_id": "NodeId", "buckets": "Vec<KBucket>", "_k_value": "usize"}),
+            "KBucket": (None, {"nodes": "Vec<NodeInfo>", "max_size": "usize"}),
+            "NodeInfo": (None, {"id": "NodeId"}),
         },
         "items": [
             {"impl": "KademliaRoutingTable", "fn": "get_bucket_index",
@@ -33,7 +35,42 @@ UNITS = {
              "spec": _BUCKET_SPEC("key.0", "verus_key_first_differing_bit"), "loop_count": 1,
              "loops": {0: _BUCKET_LOOP_INV("key.0")},
              "loop_proofs": {0: _BUCKET_LOOP_PROOF("key.0")}},
+            {"impl": "KBucket", "fn": "new",
+             "spec": """
+    ensures
+        r.nodes@.len() == 0 && r.max_size == max_size, // @C02/kbucket/new_is_empty_with_max_size
+"""},
+            {"impl": "KademliaRoutingTable", "fn": "new", "loop_count": 1,
+             "loops": {0: """
+            invariant
+                buckets@.len() == i,
+                forall|b: int| 0 <= b < i ==> (#[trigger] buckets@[b]).nodes@.len() == 0 && buckets@[b].max_size == k_value,
+"""},
+             "rewrite": [(r"for _ in 0\.\.KADEMLIA_BUCKET_COUNT", "for i in 0..KADEMLIA_BUCKET_COUNT", "loop variable named so that the invariant can mention it (binder only)"),
+                         (r"let mut buckets = Vec::new\(\);", "let mut buckets: Vec<KBucket> = Vec::new();", "type annotation only (inference needs it once the invariant mentions the vector)")],
+             "spec": """
+    ensures
+        r.wf(), // @C02/table/new_table_satisfies_invariant
+        r.node_id == node_id,
+        forall|q: NodeId| !r.lists(q), // @C02/table/new_table_lists_nobody
+        forall|b: int| 0 <= b < 256 ==> (#[trigger] r.buckets@[b]).max_size == k_value, // @C02/table/new_buckets_have_max_size_k
+"""},
+            {"impl": "KademliaRoutingTable", "fn": "add_node",
+             "spec": """
+    requires
+        old(self).buckets@.len() == 256,
+    ensures
+        table_add_step(old(self), final(self), node, r.is_ok()), // @C02/table/add_step_touches_only_the_bucket_of_the_first_differing_bit
+"""},
+            {"impl": "KademliaRoutingTable", "fn": "remove_node",
+             "spec": """
+    requires
+        old(self).buckets@.len() == 256,
+    ensures
+        table_remove_step(old(self), final(self), *node_id), // @C02/table/remove_step_touches_only_the_bucket_of_the_first_differing_bit
+"""},
         ],
+        "consts_verbatim": ["KADEMLIA_BUCKET_COUNT"],
         "paired_kani": ["c02_bucket_index_node", "c02_bucket_index_key"],
         "trusted": [
             "verus external_body: DhtKey::distance ensures is_xor (same contract proved on the real fn by Kani c02_distance_is_xor)",
@@ -258,5 +295,67 @@ UNITS["ipdiv"] = {
         "verus external_body: IPDiversityEnforcer::get_per_ip_limit == min(cap, max(1, floor(size*fraction))) with the f64 part uninterpreted (contract proved on the real fn by Kani c13_per_ip_limit_contract)",
         "precondition: configured caps >= 1, max_per_ip_cap <= 2^28 (x10 multiplier does not overflow), country counters < usize::MAX",
         "struct shims omit fields no extracted function touches (geo_provider, reputation_score, enable_geolocation_check, ...); anyhow error values are replaced by a unit error type",
+    ],
+}
+
+_P2PERR = ["P2PError::"]
+UNITS["peerrec"] = {
+    "property": "C09",
+    "src": "src/peer_record.rs",
+    "spec": "verus/peerrec.spec.rs",
+    "shims": {
+        "UserId": (None, {"hash": "[u8; 32]"}),
+        "PeerDHTRecord": (None, {"version": "u8", "user_id": "UserId", "public_key": "MlDsaPublicKey", "sequence_number": "u64",
+                                 "name": "Option<String>", "endpoints": "Vec<PeerEndpoint>", "ttl": "u32", "timestamp": "u64",
+                                 "signature": "MlDsaSignature"}),
+        "SignatureCache": (None, {"cache": "HashMap<Hash, bool>", "max_size": "usize"}),
+    },
+    "consts_verbatim": ["MAX_ENDPOINTS_PER_PEER", "MAX_TTL_SECONDS"],
+    "items": [
+        {"impl": "PeerDHTRecord", "fn": "validate_inputs", "erase_errors": _P2PERR,
+         "spec": """
+    ensures
+        r.is_ok() == within_bounds(name, endpoints@.len(), ttl), // @C09/bounds/construction_accepts_exactly_the_documented_bounds
+"""},
+        {"impl": "PeerDHTRecord", "fn": "create_signable_message", "erase_errors": _P2PERR, "desugar": ["ref_pat"],
+         "rewrite": [(r"\.to_be_bytes\(\)", ".verif_to_be_bytes()", "callee renamed to a shim method whose body is the std call and whose contract (big-endian bytes, fixed length, injective) is assumed")],
+         "spec": """
+    ensures
+        r.is_ok() == encodable(self), // @C09/signable/fails_only_when_endpoints_cannot_be_encoded
+        r matches Ok(m) ==> m@ == signable(self), // @C09/signable/message_is_the_canonical_encoding_of_every_field
+"""},
+        {"impl": "PeerDHTRecord", "fn": "verify_signature", "erase_errors": _P2PERR,
+         "spec": """
+    ensures
+        r.is_ok() == verdict(self), // @C09/verify/succeeds_iff_id_derived_from_key_and_signature_covers_this_record
+"""},
+        {"impl": "SignatureCache", "fn": "new",
+         "spec": """
+    ensures
+        r.inv(), // @C09/cache/new_cache_satisfies_invariant
+        r.max_size == max_size,
+"""},
+        {"impl": "SignatureCache", "fn": "cache_key", "erase_errors": _P2PERR,
+         "spec": """
+    ensures
+        r.is_ok() == encodable(record),
+        r matches Ok(h) ==> h == blake3::hash_of(key_material(record)), // @C09/cache/key_covers_signed_fields_and_signature
+"""},
+        {"impl": "SignatureCache", "fn": "verify_cached", "erase_errors": _P2PERR, "desugar": ["deref_pat"],
+         "spec": """
+    requires
+        old(self).inv(),
+    ensures
+        final(self).inv(), // @C09/cache/invariant_kept_for_every_capacity_and_eviction_choice
+        r.is_ok() == verdict(record), // @C09/cache/cached_verdict_equals_direct_verification
+        final(self).max_size == old(self).max_size,
+"""},
+    ],
+    "paired_kani": [],
+    "trusted": [
+        "ASSUMED ideal-crypto contracts (verus/peerrec.spec.rs): ml_dsa_verify is a deterministic function of (key, message, signature); BLAKE3 is injective on its input; UserId::from_public_key is a function of the key; postcard::to_stdvec is a deterministic injective encoding; to_be_bytes are fixed-length injective; String::len/as_bytes give the UTF-8 bytes",
+        "shim signatures: ml_dsa_verify takes &Vec<u8> instead of &[u8] (the call site passes &Vec via deref coercion); key/signature/endpoint types are opaque",
+        "error values P2PError::*(..) are replaced by a unit error (payload/message text dropped); control flow untouched",
+        "std::collections::HashMap through vstd's specifications (obeys_key_model assumed for blake3::Hash)",
     ],
 }
